@@ -142,7 +142,8 @@ def run(prop, tier, seed, only_case=None, quiet=False):
   n_cases = plan['n_cases']
   nshards = min(plan.get('shards', 16), max(1, n_cases))
   timeout_s = plan.get('timeout_s', 1800 if tier == 'quick' else 4 * 3600)
-  workdir = os.path.join(ROOT, '.work', f'{prop}_{tier}_{seed}' + ('_replay' if only_case is not None else ''))
+  alt = '' if REPO == '/repo' else '_alt' + hashlib.sha1(REPO.encode()).hexdigest()[:8]   # scratch copies never share a work dir with /repo
+  workdir = os.path.join(ROOT, '.work', f'{prop}_{tier}_{seed}' + ('_replay' if only_case is not None else '') + alt)
   os.makedirs(workdir, exist_ok=True)
   for f in os.listdir(workdir):
     os.remove(os.path.join(workdir, f))
